@@ -15,10 +15,11 @@ import (
 var defaultPkgs = []string{repoMod, repoMod + "/typed", repoMod + "/thrift", repoMod + "/thrift/arg2", repoMod + "/http", repoMod + "/tnet", repoMod + "/internal/argreader", repoMod + "/relay"}
 
 type Report struct {
-	Results []*FnResult
-	WallS   float64
-	LoadS   float64
-	Errors  []string
+	MonitorWriters map[string][]string
+	Results        []*FnResult
+	WallS          float64
+	LoadS          float64
+	Errors         []string
 }
 
 func main() {
@@ -68,7 +69,7 @@ func main() {
 		}
 	}
 	var targets []string
-	rep := &Report{LoadS: loadS}
+	rep := &Report{LoadS: loadS, MonitorWriters: eng.monitorWriters()}
 	if *fnRe != "" {
 		re := regexp.MustCompile(*fnRe)
 		for name, fn := range eng.funcs {
